@@ -6,10 +6,14 @@ from core import Case, nlist
 from pyerr import canon_call, exc_code
 
 PROP = 'C07'
-COQ_TARGETS = ['theories/ApciFacts.vo', 'theories/ApciHdr.vo', 'theories/ApciDec.vo', 'theories/ApciTypes.vo', 'theories/ApciSessionFacts.vo']
+COQ_TARGETS = ['theories/ApciFacts.vo', 'theories/ApciHdr.vo', 'theories/ApciDec.vo', 'theories/ApciTypes.vo', 'theories/ApciSessionFacts.vo',
+               'theories/ApciGenFacts.vo']
 COQ_IMPORTS = 'From Bac Require Import Base PyRt Apci ApciSession.\nFrom BacGen Require Import ApduFns.'
 TABLE_OBLIGATIONS = ['maxsegs_table_std', 'maxapdu_table_std', 'enc_ms_eq', 'enc_ml_eq', 'dec_ms_range', 'dec_ml_range',
-                     'dec_ms_values', 'dec_ml_values', 'maxsegs_encode_total', 'maxsegs_unspecified', 'tables_never_up']
+                     'dec_ms_values', 'dec_ml_values', 'maxsegs_encode_total', 'maxsegs_unspecified', 'tables_never_up',
+                     # ApciGenFacts.v: the AST translation of the header methods (gen/ApciFns.v) equals the hand model, for all inputs
+                     'pdu_type_constants_std', 'py_APCI_update_eq', 'py_APCI_encode_eq', 'py_APCI_decode_eq', 'py_APDU_encode_eq',
+                     'py_APDU_decode_eq', 'py__APDU_encode_eq', 'py__APDU_decode_eq']
 RULE = ('cases: APDU.encode on headers of all eight types — flag bits x all 8x16 code points (confirmed request) x octet fields from '
         '{0,1,127,128,255} (full cross product for the small types, one random boundary assignment per flag/code combination for '
         'confirmed requests, a sample of the complex-ack product in the quick tier), each followed by APDU.decode of the octets produced '
@@ -19,11 +23,21 @@ RULE = ('cases: APDU.encode on headers of all eight types — flag bits x all 8x
         'tier) and all code points -20..20; object histories (one case per session): for every PDU type x first payload empty / non-empty x '
         'three ways of mutating the decoded object\'s pduData in place (put_data, single octet, target of another encode): decode, mutate, '
         'decode other octets into fresh objects and into the SAME object, hand one to its typed class and mutate that, decode again, '
-        're-encode everything (objects that failed to decode are not used again).  non-trivial = an encode that yields octets or is refused, a decode of >= 1 octet, a table '
+        're-encode everything (objects that failed to decode are not used again); re-use sessions: a typed PDU object decoded into a second '
+        'and third time (typedinto), frames loaded into a PDU object that is decoded from, relayed into (encode back into the consumed PDU) and '
+        're-filled with the next frame (new / load / decfrom / enc / peek); large payloads: every PDU type (segmented and not) x payload sizes '
+        '1470..1480, 1497, 2000, 5000 octets, encode and decode, through APDU and through the typed classes, and octet strings of 1476..5000 '
+        'octets with arbitrary first octets (the payload is a pattern; the canonical result says whether the octets after the header are '
+        'exactly that pattern).  non-trivial = an encode that yields octets or is refused, a decode of >= 1 octet, a table '
         'call; distinct by (operation, input); in the direct check: cross-product headers (distinct by construction), distinct random '
         '(header, payload) pairs, table arguments, distinct octet strings that decode to a header.  The direct check sweeps the full cross product of the property text on the implementation alone.')
 TRUSTED = ['model coq/theories/Apci.v written by hand after apdu.py:175-322 (APCI.encode/decode) and apdu.py:370-381 (APDU.encode/decode); '
-           'tie = in-kernel correspondence',
+           'tie = (1) TRANSLATION: translator/gen_apci.py re-translates APCI.update/encode/decode, APDU.encode/decode, _APDU.encode/decode and the eight '
+           'pduType constants from the source (Python ast, statement by statement, fail-closed) into coq/gen/ApciFns.v on every run, and '
+           'coq/theories/ApciGenFacts.v re-proves for all inputs that the translated text equals the hand model; (2) in-kernel correspondence',
+           'translator/gen_apci.py itself (about 450 lines: typing of expressions as Z / N / bool / option, evaluation order, continuation-passing of '
+           'if/elif/else, value semantics of `self.pduData = pdu.pduData` (aliasing is not modelled); skip allow-list: `if _debug:` lines, docstrings, '
+           'PCI.update(a, b)) and coq/theories/ApciRt.v (setters, None-aware comparisons, a_put / a_get_data = comm.PDUData.put / get_data, hand-modelled)',
            'coq/gen/ApduFns.v is AST-translated from apdu.py:58-108 on every run; the rounding theorems are about that text',
            'object-history model coq/theories/ApciSession.v (store of objects, overlay of attributes on re-used objects, payload replaced on '
            'decode, appended on put_data / encode-into, moved by the typed classes): hand-written, tied by the session cases',
@@ -156,6 +170,42 @@ def impl_table(name, arg):
     return canon_call(lambda: getattr(A, name)(arg), ok)
 
 
+# ---- large payloads: a pattern both sides can regenerate (ApciSession.pat)
+BIG_SIZES = list(range(1470, 1481)) + [1497, 2000, 5000]
+
+
+def pat(n, k):
+    return bytes((i * 7 + k) % 256 for i in range(n))
+
+
+def canon_enc_big(n, k):
+    def f(octets):
+        hl = max(len(octets) - n, 0)
+        return list(octets[:hl]) + [len(octets), 1 if bytes(octets[hl:]) == pat(n, k) else 0]
+    return f
+
+
+def canon_dec_big(n, k):
+    def f(r):
+        h, rest = r
+        return [canon_field(h[x]) for x in FIELDS] + [len(rest), 1 if bytes(rest) == pat(n, k) else 0]
+    return f
+
+
+def big_headers(rng):
+    """one random header per PDU type, both segmentation settings for the two types that have the flag"""
+    out = []
+    for ty in range(8):
+        if ty in (0, 3):
+            for seg in (False, True):
+                h = random_header(rng, ty)
+                h['apduSeg'] = seg
+                out.append(h)
+        else:
+            out.append(random_header(rng, ty))
+    return out
+
+
 # ---- Coq expressions
 def coq_oz(v):
     if v is None:
@@ -193,6 +243,26 @@ def case_dec(octets, kind='dec'):
                 nontrivial=len(octets) >= 1, desc={'op': 'decode', 'octets': bytes(octets).hex()})
 
 
+def case_enc_big(h, n, k, typed=False):
+    impl = (lambda: impl_encode_typed_raw(h, pat(n, k))) if typed else (lambda: impl_encode_raw(h, pat(n, k)))
+    exp = canon_call(impl, canon_enc_big(n, k))
+    return Case('enc-typed-big' if typed else 'enc-big',
+                'canon_enc_big %d%%nat %d%%N (enc_apdu %s (pat %d%%nat %d%%N))' % (n, k, coq_hdr(h), n, k), exp,
+                key=('enc-big', typed, repr(sorted(h.items(), key=str)), n, k), nontrivial=True,
+                desc={'op': 'encode', 'via': 'typed' if typed else 'APDU', 'header': {x: h[x] for x in FIELDS if h[x] is not None},
+                      'payload_pattern': [n, k]})
+
+
+def case_dec_big(prefix, n, k, typed=False):
+    octets = bytes(prefix) + pat(n, k)
+    impl = (lambda: impl_decode_typed_raw(octets)) if typed else (lambda: impl_decode_raw(octets))
+    exp = canon_call(impl, canon_dec_big(n, k))
+    return Case('dec-typed-big' if typed else 'dec-big',
+                'canon_dec_big %d%%nat %d%%N (dec_apci (%s ++ pat %d%%nat %d%%N))' % (n, k, nlist(prefix), n, k), exp,
+                key=('dec-big', typed, bytes(prefix), n, k), nontrivial=True,
+                desc={'op': 'decode', 'via': 'typed' if typed else 'APDU', 'prefix': bytes(prefix).hex(), 'payload_pattern': [n, k]})
+
+
 def _typed_obj(h, payload):
     from bacpypes import apdu as A
     x = A.apdu_types[h['apduType']]()
@@ -203,30 +273,32 @@ def _typed_obj(h, payload):
     return x
 
 
-def impl_encode_typed(h, payload):
+def impl_encode_typed_raw(h, payload):
     from bacpypes import apdu as A
     from bacpypes.pdu import PDU
+    a = A.APDU()
+    _typed_obj(h, payload).encode(a)        # _APDU.encode: APCI.update(a, self) + payload
+    pdu = PDU()
+    a.encode(pdu)
+    return bytes(pdu.pduData)
 
-    def f():
-        a = A.APDU()
-        _typed_obj(h, payload).encode(a)        # _APDU.encode: APCI.update(a, self) + payload
-        pdu = PDU()
-        a.encode(pdu)
-        return bytes(pdu.pduData)
-    return canon_call(f, list)
+
+def impl_decode_typed_raw(octets):
+    from bacpypes import apdu as A
+    from bacpypes.pdu import PDU
+    a = A.APDU()
+    a.decode(PDU(bytes(octets)))
+    y = A.apdu_types[a.apduType]()
+    y.decode(a)                             # _APDU.decode: APCI.update(self, a) + payload
+    return {k: getattr(y, k) for k in FIELDS}, bytes(y.pduData)
+
+
+def impl_encode_typed(h, payload):
+    return canon_call(lambda: impl_encode_typed_raw(h, payload), list)
 
 
 def impl_decode_typed(octets):
-    from bacpypes import apdu as A
-    from bacpypes.pdu import PDU
-
-    def f():
-        a = A.APDU()
-        a.decode(PDU(bytes(octets)))
-        y = A.apdu_types[a.apduType]()
-        y.decode(a)                             # _APDU.decode: APCI.update(self, a) + payload
-        return {k: getattr(y, k) for k in FIELDS}, bytes(y.pduData)
-    return canon_call(f, canon_hdr)
+    return canon_call(lambda: impl_decode_typed_raw(octets), canon_hdr)
 
 
 def case_enc_typed(h, payload):
@@ -256,12 +328,19 @@ def case_table(name, arg):
 #                                    ['enct', o, header, payload-hex]  a fresh APDU (header, payload) does .encode(objs[o])
 #                                    ['typed', dst, src]               objs[dst] = apdu_types[t](); objs[dst].decode(objs[src])
 #                                    ['reenc', o]                      objs[o] encoded into a fresh PDU
+#   round 3 (re-used typed objects, sources and targets):
+#                                    ['typedinto', dst, src]           objs[dst].decode(objs[src]), objs[dst] an EXISTING typed object
+#                                    ['new', o]                        objs[o] = PDU()
+#                                    ['load', o, header, payload-hex]  objs[o].put_data(spec20_1(header) + payload): a frame arrives in that PDU
+#                                    ['decfrom', o, src]               objs[o].decode(objs[src]): the source is an object the application keeps
+#                                    ['enc', o, dst]                   objs[o].encode(objs[dst]) (APDU.encode; relay when dst is the consumed source)
+#                                    ['peek', o]                       bytes(objs[o].pduData) observed
 def _framed(l):
     return [len(l)] + list(l)
 
 
 def op_octets(op):
-    if op[0] == 'dec':
+    if op[0] in ('dec', 'load'):
         return bytes(spec20_1(_h(op[2]))) + bytes.fromhex(op[3])
     return bytes.fromhex(op[2])
 
@@ -313,6 +392,23 @@ def impl_session(ops):
                     obj.encode(pdu)
                 return bytes(pdu.pduData)
             out += _framed(canon_call(g, list))
+        elif k == 'typedinto':
+            objs[op[1]].decode(get(op[2]))
+        elif k == 'new':
+            objs[op[1]] = PDU()
+        elif k == 'load':
+            get(op[1]).put_data(op_octets(op))
+        elif k == 'decfrom':
+            obj, src = get(op[1]), get(op[2])
+
+            def f2():
+                obj.decode(src)
+                return {x: getattr(obj, x) for x in FIELDS}, bytes(obj.pduData)
+            out += _framed(canon_call(f2, canon_hdr))
+        elif k == 'enc':
+            out += _framed(canon_call(lambda: get(op[1]).encode(get(op[2])), lambda r: []))
+        elif k == 'peek':
+            out += _framed(list(bytes(get(op[1]).pduData)))
         else:
             raise AssertionError(op)
     return out
@@ -330,6 +426,18 @@ def coq_op(op):
         return '(OpTyped %d%%nat %d%%nat)' % (op[1], op[2])
     if k == 'reenc':
         return '(OpReencode %d%%nat)' % op[1]
+    if k == 'typedinto':
+        return '(OpTyped %d%%nat %d%%nat)' % (op[1], op[2])
+    if k == 'new':
+        return '(OpNew %d%%nat)' % op[1]
+    if k == 'load':
+        return '(OpPut %d%%nat %s)' % (op[1], nlist(op_octets(op)))
+    if k == 'decfrom':
+        return '(OpDecodeFrom %d%%nat %d%%nat)' % (op[1], op[2])
+    if k == 'enc':
+        return '(OpEncodeTo %d%%nat %d%%nat)' % (op[1], op[2])
+    if k == 'peek':
+        return '(OpPeek %d%%nat)' % op[1]
     raise AssertionError(op)
 
 
@@ -381,6 +489,52 @@ def history_sessions(rng, variants):
     return out
 
 
+def reuse_sessions(rng, variants):
+    """for every PDU type: (1) ONE typed object that is the decode target for a second and a third frame of its type
+    (payload non-empty, then different, then empty), re-encoded after each; (2) relay: a frame is loaded into a PDU object,
+    an APDU decodes from it and encodes back into that same PDU; (3) receive-buffer reuse: the next frame is loaded into the
+    PDU an APDU was decoded from, the earlier APDU is re-encoded, the next frame is decoded from the same PDU into a fresh
+    and into the earlier APDU"""
+    out = []
+    pay = lambda: bytes(rng.randrange(256) for _ in range(rng.choice([1, 3, 7, 14])))
+    for t in range(8):
+        for v in range(variants):
+            ops = []
+            # (1) typed object 10 used three times
+            ops.append(['dec', 0, _hd(random_header(rng, t)), pay().hex()])
+            ops.append(['typed', 10, 0])
+            if v % 2:
+                ops.append(['put', 10, pay().hex()])                  # the application scribbled on it in between
+            ops.append(['reenc', 10])
+            ops.append(['dec', 1, _hd(random_header(rng, t)), pay().hex()])
+            ops.append(['typedinto', 10, 1])
+            ops.append(['reenc', 10])
+            ops.append(['dec', 2, _hd(random_header(rng, t)), '' if v % 3 else pay().hex()])
+            ops.append(['typedinto', 10, 2])
+            ops.append(['reenc', 10])
+            # (2) relay through the PDU the frame came in
+            ops.append(['new', 20])
+            ops.append(['load', 20, _hd(random_header(rng, t)), pay().hex() if v % 2 == 0 else ''])
+            ops.append(['decfrom', 3, 20])
+            ops.append(['peek', 20])
+            ops.append(['enc', 3, 20])
+            ops.append(['peek', 20])
+            # (3) the next frames arrive in the PDU a frame was decoded from
+            ops.append(['new', 21])
+            ops.append(['load', 21, _hd(random_header(rng, t)), pay().hex()])
+            ops.append(['decfrom', 4, 21])
+            ops.append(['load', 21, _hd(random_header(rng, (t + 1 + v) % 8)), pay().hex() if v % 2 else ''])
+            ops.append(['reenc', 4])
+            ops.append(['decfrom', 5, 21])
+            ops.append(['load', 21, _hd(random_header(rng)), pay().hex()])
+            ops.append(['decfrom', 4, 21])                            # into the APDU used before
+            ops.append(['peek', 21])
+            for o in (3, 4, 5):
+                ops.append(['reenc', o])
+            out.append(ops)
+    return out
+
+
 DEMO_SESSION = [['dec', 0, {'apduType': 6, 'apduInvokeID': 7, 'apduAbortRejectReason': 4}, ''], ['put', 0, 'dead'],
                 ['enct', 0, {'apduType': 0, 'apduSeg': False, 'apduMor': False, 'apduSA': False, 'apduMaxSegs': 0, 'apduMaxResp': 5,
                              'apduInvokeID': 3, 'apduService': 12}, '0c008000011955']] + \
@@ -402,11 +556,23 @@ def check_session(ops):
     from bacpypes.pdu import PDU
     from bacpypes.errors import DecodingError
     objs, exp = {}, {}
+    pending = {}        # PDU-like object -> list of [header, payload] frames loaded into it and not decoded yet (None = unknown)
 
     def get(o):
         if o not in objs:
             objs[o] = A.APDU()
         return objs[o]
+
+    def restored(obj, h, payload, i):
+        if bytes(obj.pduData) != payload:
+            return fail('history-payload-changed', i, fed=payload.hex(), got=bytes(obj.pduData).hex())
+        if obj.apduType != h['apduType']:
+            return fail('history-field-not-restored', i, field='apduType', got=obj.apduType)
+        for f in relevant(h):
+            v = getattr(obj, f)
+            if v is None or canon_field(v) != canon_field(h[f]):
+                return fail('history-field-not-restored', i, field=f, got=v)
+        return None
 
     def fail(kind, i, **kw):
         d = {'kind': kind, 'session': ops, 'step': i, 'op': ops[i]}
@@ -436,6 +602,8 @@ def check_session(ops):
                     pass
             elif k == 'put':
                 get(op[1]).put_data(bytes.fromhex(op[2]))
+                if op[1] in pending:
+                    pending[op[1]] = None
                 if op[1] in exp:
                     exp[op[1]][1] = exp[op[1]][1] + bytes.fromhex(op[2])
             elif k == 'enct':
@@ -452,6 +620,64 @@ def check_session(ops):
                     exp[op[1]] = list(exp.pop(op[2]))        # the payload moves to the typed object
                     if bytes(dst.pduData) != exp[op[1]][1]:
                         return fail('history-payload-changed', i, fed=exp[op[1]][1].hex(), got=bytes(dst.pduData).hex())
+            elif k == 'typedinto':
+                # an EXISTING typed object is the decode target again: payload and fields are the new frame's
+                dst, src = objs[op[1]], get(op[2])
+                dst.decode(src)
+                exp.pop(op[1], None)
+                if op[2] in exp:
+                    exp[op[1]] = list(exp.pop(op[2]))
+                    r = restored(dst, exp[op[1]][0], exp[op[1]][1], i)
+                    if r:
+                        return r
+            elif k == 'new':
+                objs[op[1]] = PDU()
+                exp.pop(op[1], None)
+                pending[op[1]] = []
+            elif k == 'load':
+                obj = get(op[1])
+                drained = len(obj.pduData) == 0
+                obj.put_data(op_octets(op))
+                # what the PDU holds is known only if it was empty (or is tracked) when the frame arrived
+                if pending.get(op[1]) == [] and drained:
+                    pending[op[1]] = [[_h(op[2]), bytes.fromhex(op[3])]]
+                else:
+                    pending[op[1]] = None
+                # "payload untouched": an APDU decoded earlier from this PDU must not change (checked at its re-encode)
+            elif k == 'decfrom':
+                obj, src = get(op[1]), get(op[2])
+                fr = pending.get(op[2])
+                exp.pop(op[1], None)
+                if fr and len(fr) == 1:
+                    h, payload = fr[0]
+                    obj.decode(src)
+                    r = restored(obj, h, payload, i)
+                    if r:
+                        return r
+                    exp[op[1]] = [h, payload]
+                    pending[op[2]] = [] if len(src.pduData) == 0 else None
+                else:
+                    try:
+                        obj.decode(src)
+                    except DecodingError:
+                        pass
+                    pending[op[2]] = None
+            elif k == 'enc':
+                # encode a decoded APDU into an object of the store (relay: the PDU it was decoded from): must not fail,
+                # and the target must end with the clause 20.1 octets + payload
+                obj, dst = get(op[1]), get(op[2])
+                if op[1] not in exp:
+                    continue
+                h, payload = exp[op[1]]
+                obj.encode(dst)
+                want = bytes(spec20_1(h)) + payload
+                if not bytes(dst.pduData).endswith(want):
+                    return fail('history-relay', i, got=bytes(dst.pduData).hex(), want_suffix=want.hex())
+                if bytes(obj.pduData) != payload:
+                    return fail('history-payload-changed', i, fed=payload.hex(), got=bytes(obj.pduData).hex())
+                pending[op[2]] = [[h, payload]] if bytes(dst.pduData) == want else None
+            elif k == 'peek':
+                pass
             elif k == 'reenc':
                 if op[1] not in exp:
                     continue
@@ -653,10 +879,28 @@ def cases(rng, tier):
         if rng.random() < 0.7:
             bs[0] = (rng.randrange(8) << 4) | rng.randrange(16)
         out.append(case_dec(bytes(bs), 'dec-random'))
+    # large payloads: sizes at and around the largest APDU (1476) and far beyond, every PDU type, both directions,
+    # through APDU and through the typed classes
+    for h in big_headers(rng):
+        sizes = BIG_SIZES if big else BIG_SIZES[:11:2] + [1471, 1473, 1477] + BIG_SIZES[11:]
+        for n in sorted(set(sizes)):
+            k = rng.randrange(256)
+            out.append(case_enc_big(h, n, k))
+            out.append(case_dec_big(spec20_1(h), n, k))
+            if big or n in (1470, 1471, 1474, 1476, 1477, 2000):
+                out.append(case_enc_big(h, n, k, typed=True))
+                out.append(case_dec_big(spec20_1(h), n, k, typed=True))
+    # long octet strings with arbitrary first octets (valid and reserved types, truncated-looking headers)
+    for n in ([1470, 1471, 1472, 1473, 1474, 1475, 1476, 1477, 1478, 1480, 1497, 2000, 5000] if big else [1471, 1475, 1476, 1477, 1478, 2000, 5000]):
+        for _ in range(12 if big else 4):
+            prefix = bytes(rng.randrange(256) for _ in range(rng.choice([1, 2, 6])))
+            out.append(case_dec_big(prefix, n, rng.randrange(256)))
     # object histories (one case per session)
     out.append(case_session(DEMO_SESSION))
     for ops in history_sessions(rng, 6 if big else 2):
         out.append(case_session(ops))
+    for ops in reuse_sessions(rng, 12 if big else 4):
+        out.append(case_session(ops, 'history-reuse'))
     # code tables
     for n in table_args(rng, tier):
         out.append(case_table('encode_max_segments_accepted', n))
@@ -683,14 +927,14 @@ def check_header(h, payload):
     try:
         octets = impl_encode_raw(h, payload)
     except Exception as e:
-        return {'kind': 'encode-exception', 'header': _show(h), 'exc': repr(e)[:200]}
+        return {'kind': 'encode-exception', 'header': _show(h), 'payload': bytes(payload).hex(), 'payload_octets': len(payload), 'exc': repr(e)[:200]}
     want = bytes(spec20_1(h)) + bytes(payload)
     if octets != want:
         return {'kind': 'layout', 'header': _show(h), 'payload': bytes(payload).hex(), 'got': octets.hex(), 'want': want.hex()}
     try:
         d, rest = impl_decode_raw(octets)
     except Exception as e:
-        return {'kind': 'decode-exception', 'header': _show(h), 'octets': octets.hex(), 'exc': repr(e)[:200]}
+        return {'kind': 'decode-exception', 'header': _show(h), 'octets': octets.hex(), 'octets_len': len(octets), 'exc': repr(e)[:200]}
     if rest != bytes(payload):
         return {'kind': 'payload-changed', 'header': _show(h), 'octets': octets.hex(), 'payload': bytes(payload).hex(), 'got': rest.hex()}
     if d['apduType'] != h['apduType']:
@@ -727,7 +971,7 @@ def check_typed(h, payload):
     try:
         octets, d, rest, got_cls, want_cls = _typed(h, payload)
     except Exception as e:
-        return {'kind': 'typed-exception', 'header': _show(h), 'exc': repr(e)[:200]}
+        return {'kind': 'typed-exception', 'header': _show(h), 'payload': bytes(payload).hex(), 'payload_octets': len(payload), 'exc': repr(e)[:200]}
     want = bytes(spec20_1(h)) + bytes(payload)
     if octets != want:
         return {'kind': 'typed-layout', 'header': _show(h), 'payload': bytes(payload).hex(), 'got': octets.hex(), 'want': want.hex()}
@@ -753,7 +997,7 @@ def check_arbitrary(bs):
     except DecodingError:
         return None, False
     except Exception as e:
-        return {'kind': 'decode-other-error', 'octets': bs.hex(), 'exc': repr(e)[:200]}, False
+        return {'kind': 'decode-other-error', 'octets': bs.hex(), 'octets_len': len(bs), 'exc': repr(e)[:200]}, False
     t = d['apduType']
     if not (isinstance(t, int) and 0 <= t <= 7 and t == bs[0] >> 4):
         return {'kind': 'decode-bad-type', 'octets': bs.hex(), 'decoded': _show(d)}, False
@@ -867,8 +1111,20 @@ def direct(rng, tier, focus=()):
         n += 2
         seen_random.add((tuple(canon_field(h[k]) for k in FIELDS), payload))
     nontriv += len(seen_random)          # cross-product headers above are distinct by construction
+    # (a'') large payloads: every type x sizes around the largest APDU and beyond, APDU and typed classes; long arbitrary strings
+    bign = 0
+    for rep in range(4 if big else 1):
+        for h in big_headers(rng):
+            for sz in BIG_SIZES:
+                payload = pat(sz, rng.randrange(256))
+                add(check_header(h, payload))
+                add(check_typed(h, payload))
+                bign += 2
+    n += bign
+    nontriv += bign
+    samples.append({'direct': 'large payloads', 'sizes': BIG_SIZES, 'evaluations': bign})
     # (a') object histories: decode -> mutate the decoded object in place -> decode again (fresh and same object) -> re-encode all
-    sess = [DEMO_SESSION] + history_sessions(rng, 40 if big else 8)
+    sess = [DEMO_SESSION] + history_sessions(rng, 40 if big else 8) + reuse_sessions(rng, 40 if big else 8)
     for ops in sess:
         add(check_session(ops))
         n += len(ops)
@@ -902,8 +1158,14 @@ def direct(rng, tier, focus=()):
             arb(bytes([a, b]))
     for _ in range(300000 if big else 40000):
         arb(bytes(rng.randrange(256) for _ in range(rng.choice([3, 3, 4, 5, 6, 8, 12]))))
+    # long strings: at and beyond the largest APDU, every first octet
+    for first in range(256):
+        for sz in (1476, 1477, rng.choice([1478, 1480, 1497, 2000, 5000])):
+            arb(bytes([first]) + bytes(rng.randrange(256) for _ in range(5)) + pat(sz - 6, first))
     for d in focus:
-        if isinstance(d, dict) and d.get('op') == 'decode':
+        if isinstance(d, dict) and d.get('op') == 'decode' and 'payload_pattern' in d:
+            arb(bytes.fromhex(d['prefix']) + pat(*d['payload_pattern']))
+        elif isinstance(d, dict) and d.get('op') == 'decode':
             arb(bytes.fromhex(d['octets']))
         elif isinstance(d, dict) and d.get('op') == 'encode':
             h = hdr(None)
@@ -914,7 +1176,7 @@ def direct(rng, tier, focus=()):
                 except Exception:
                     continue
                 if all(k in FLAGS or 0 <= h[k] <= 255 for k in relevant(h)) and (h['apduType'] != 0 or (h['apduMaxSegs'] < 8 and h['apduMaxResp'] < 16)):
-                    add(check_header(h, bytes.fromhex(d['payload'])))
+                    add(check_header(h, pat(*d['payload_pattern']) if 'payload_pattern' in d else bytes.fromhex(d['payload'])))
                     n += 1
     nontriv += len(dec_ok)
     samples.append({'direct': 'arbitrary octet strings', 'decoded_to_header': len(dec_ok)})
@@ -946,7 +1208,13 @@ def replay(payload):
                 print('correspondence: implementation', mc.get('implementation'), 'model', mc.get('model'))
             elif isinstance(b, dict):
                 print('broken:', b.get('what'))
-    print('replay', f)
+    print('replay', {k: (v if len(str(v)) < 400 else str(v)[:400] + '...') for k, v in f.items()})
+    if 'payload_pattern' in f:
+        n, k = f['payload_pattern']
+        if f.get('op') == 'decode':
+            f = dict(f, octets=(bytes.fromhex(f['prefix']) + pat(n, k)).hex())
+        else:
+            f = dict(f, payload=pat(n, k).hex())
     if 'session' in f:
         ops = f['session']
         print('implementation session:', impl_session(ops))
